@@ -296,6 +296,7 @@ func buildC08(e *engine, p *rt.Package) {
 						}
 						_, _ = drv.Call(map[string]any{"op": "ts_server_calls", "sid": p.ID})
 					}
+					var wantHeader [2]string
 					checkTSServerSaw := func() {
 						r, err := drv.Call(map[string]any{"op": "ts_server_calls", "sid": p.ID})
 						if err != nil || !r.OK() {
@@ -308,6 +309,18 @@ func buildC08(e *engine, p *rt.Package) {
 						c := calls[0].(map[string]any)
 						if c["method"] != lowerFirstASCII(m.Name) || c["service"] != svc.Name {
 							t.Fatalf("%s: reached handler %v.%v", desc, c["service"], c["method"])
+						}
+						if wantHeader[0] != "" {
+							hs, _ := c["headers"].(map[string]any)
+							gotv := ""
+							for k, v := range hs {
+								if strings.EqualFold(k, wantHeader[0]) {
+									gotv = fmt.Sprint(v)
+								}
+							}
+							if gotv != wantHeader[1] {
+								t.Fatalf("%s: header %s was set client-wide and per call to %q; the TypeScript handler saw %q", desc, wantHeader[0], wantHeader[1], gotv)
+							}
 						}
 						seenTree := treeOf(c["request"])
 						// KF-C08-1: path variables reach the handler as raw strings; with the finding open the
@@ -354,9 +367,20 @@ func buildC08(e *engine, p *rt.Package) {
 						checkTSResult(r)
 					case "go->ts":
 						tsServerExpect()
-						got, err := goClientToTS(context.Background(), m.Name, req, rt.CallOpts{Headers: goHeaders})
+						caller := goClientToTS
+						// a client-wide default header and a per-call value for the same header: the call carries the
+						// per-call value, once ("default headers for all requests" / "headers for this request only")
+						override := ""
+						if len(goHeaders) > 0 && rapid.IntRange(0, 2).Draw(t, "default_then_call") == 0 {
+							h := goHeaders[rapid.IntRange(0, len(goHeaders)-1).Draw(t, "overridden")]
+							override = h[0]
+							caller = svc.NewClient(tsBase, rt.ClientOpts{HTTPClient: &http.Client{Timeout: 30 * time.Second}, DefaultHeaders: [][2]string{{h[0], h[1]}}})
+							wantHeader = [2]string{h[0], h[1]}
+							res.class("header:default_and_per_call")
+						}
+						got, err := caller(context.Background(), m.Name, req, rt.CallOpts{Headers: goHeaders})
 						if err != nil {
-							t.Fatalf("%s: the Go client failed against the TypeScript server: %v", desc, err)
+							t.Fatalf("%s: the Go client failed against the TypeScript server (default and per-call value for %q): %v", desc, override, err)
 						}
 						checkTSServerSaw()
 						if !proto.Equal(model.Normalize(got), wantResp) {
